@@ -14,7 +14,15 @@
    Answer of c17.filter: <model>\t<spec>\t<classes>;  of c17.handled: <mask>;
    of c17.sites (case + re table): S=<mask> A=<mask> (per file: scanned by the directory walk / accepted by the per-file
    predicate) for model and spec, class ignore_sites;
-   of c17.variant (any line): the six booleans of the model variant in use (regexp gate coupled dead dup sites);
+   of c17.live: case = <ws> <root> <files> <json|-> <init cfg> <changes|-> <script> <re table> <raws> <syn>
+     script = steps separated by ",": b<i>.<k> / B<i>.<k> edit of file i (index into files) to probe text k (b: didOpen
+              first), g<i> / G<i> edit to a text without syntax error, c<j> settings notification j of <changes>; "-" none
+     raws   = <mask>=<raw> separated by "/" (oracle: the everything-enabled run for every set of analysed files the
+              history meets; the masks are the answer of c17.live.masks)
+     syn    = <k>=<line>:<col>.<line>:<col>... separated by "," (oracle: the syntax errors of probe text k)
+     answer: the client's view after initialize and after every step ("=" where it did not change) joined by "|",
+     for model and spec; class live_stale;
+   of c17.variant (any line): the seven booleans of the model variant in use (regexp gate coupled dead dup sites live);
    of c17.tojson (a client cfg): the same intent written as luahelper.json (Config.to_json of the variant in use) *)
 
 let split c s = String.split_on_char c s
@@ -84,7 +92,8 @@ let show_diags l =
 (* which variant of the model: by default the one the translator derived from the code (Tie.fixes_now: one boolean per
    fix: commit, each read off the Go sources on every run).  C17_FIXED overrides: "1" = deployed (all repairs),
    "0" = the original code, "r1" = the code after round 1, "r2" = after round 2 (before the two ignore sites were made
-   one), or six 0/1 characters (regexp gate coupled dead dup sites) *)
+   one), "r3" = before a settings change cleared the live syntax errors, or seven 0/1 characters (regexp gate coupled
+   dead dup sites live; six = live as in the code) *)
 let fx =
   match (try Some (Sys.getenv "C17_FIXED") with Not_found -> None) with
   | None -> fixes_now
@@ -92,9 +101,11 @@ let fx =
   | Some "0" -> code_original
   | Some "r1" -> code_round1
   | Some "r2" -> code_round2
-  | Some s when String.length s = 6 ->
+  | Some "r3" -> code_round3
+  | Some s when String.length s = 6 || String.length s = 7 ->
     { fx_regexp = (s.[0] = '1'); fx_gate = (if s.[1] = '1' then gate_types_fixed else special_types); fx_coupled = (s.[2] = '1'); fx_dead = (s.[3] = '1');
-      fx_dup = (s.[4] = '1'); fx_sites = (s.[5] = '1') }
+      fx_dup = (s.[4] = '1'); fx_sites = (s.[5] = '1');
+      fx_live = (if String.length s = 7 then s.[6] = '1' else fixes_now.fx_live) }
   | Some s -> failwith ("bad C17_FIXED " ^ s)
 (* the analysed set and the spec column are computed with the regexp repair in (it never faults and agrees with the
    code whenever the code does not fault), so that they are meaningful for crash cases too *)
@@ -177,9 +188,110 @@ let () = register "c17.sites" (fun line ->
      | OutOfFuel -> "OUT-OF-FUEL\t" ^ spec ^ "\t-")
   | _ -> "BAD-CASE")
 
+(* ---- unsaved buffers: leg c17.live ---- *)
+
+type live_step = LEdit of n list * int option | LSet of int
+let parse_script (files : n list list) s : live_step list =
+  if s = "-" then [] else
+  List.map (fun st ->
+      let arg = String.sub st 1 (String.length st - 1) in
+      match st.[0] with
+      | 'b' | 'B' -> (match split '.' arg with
+          | [i; k] -> LEdit (List.nth files (int_of_string i), Some (int_of_string k))
+          | _ -> failwith "bad step")
+      | 'g' | 'G' -> LEdit (List.nth files (int_of_string arg), None)
+      | 'c' -> LSet (int_of_string arg)
+      | _ -> failwith "bad step") (split ',' s)
+
+let mask_of_set (files : n list list) (fs : n list list) =
+  String.concat "" (List.map (fun f -> if List.mem f fs then "1" else "0") files)
+
+(* the sets of analysed files a history meets: after initialize and after every settings notification, as the model
+   (regexp repair in: it never faults) and as the intent see them *)
+let () = register "c17.live.masks" (fun line ->
+  let p = parse line in
+  match p.rest with
+  | script :: re :: _ ->
+    let (re_ok, re_match) = parse_re p.root p.files re in
+    let steps = parse_script p.files script in
+    let css = List.fold_left (fun acc st -> match st with
+        | LSet j -> (List.hd acc @ [List.nth p.cs j]) :: acc
+        | _ -> acc) [[]] steps in
+    let masks = ref [] in
+    let add m = if not (List.mem m !masks) then masks := !masks @ [m] in
+    List.iter (fun cs ->
+        (match session fx_nofault re_ok p.json p.c0 false cs with
+         | Ok s -> add (mask_of_set p.files (List.filter (is_handled fx_nofault re_ok re_match s.s_g) p.files))
+         | _ -> ());
+        let i = session_intent p.json p.c0 cs in
+        add (mask_of_set p.files (List.filter (spec_handled re_ok re_match i) p.files))) (List.rev css);
+    String.concat "," !masks
+  | _ -> "BAD-CASE")
+
+let () = register "c17.live" (fun line ->
+  let p = parse line in
+  match p.rest with
+  | [script; re; raws; syn] ->
+    let (re_ok, re_match) = parse_re p.root p.files re in
+    let steps = parse_script p.files script in
+    let rawtab = List.map (fun e -> match split '=' e with
+        | [m; r] -> (m, plist parse_diag r)
+        | _ -> failwith "bad raw entry") (split '/' raws) in
+    let raw fs = let m = mask_of_set p.files fs in
+      (try List.assoc m rawtab with Not_found -> failwith ("raw run missing for mask " ^ m)) in
+    let syntab = List.map (fun e -> match split '=' e with
+        | [k; v] -> (int_of_string k, List.map (fun lc -> match split ':' lc with
+            | [l; c] -> (int_of_string l, int_of_string c)
+            | _ -> failwith "bad syn entry") (split '.' v))
+        | _ -> failwith "bad syn entry") (split ',' syn) in
+    let errs_of f k = List.map (fun (l, c) ->
+        { d_file = f; d_type = n_of_int 1; d_line = n_of_int l; d_col = n_of_int c; d_ref = None }) (List.assoc k syntab) in
+    let ev st = match st with
+      | LEdit (f, Some k) -> EEdit (f, errs_of f k)
+      | LEdit (f, None) -> EEdit (f, [])
+      | LSet j -> ESettings (List.nth p.cs j) in
+    let evs = List.map ev steps in
+    let show view = show_diags (List.concat (List.map view p.files)) in
+    let compress l =
+      let rec go last = function
+        | [] -> []
+        | v :: r -> if Some v = last then "=" :: go last r else v :: go (Some v) r in
+      String.concat "|" (go None l) in
+    (* the demanded views *)
+    let v0 = spec_file_view re_ok re_match raw (session_intent p.json p.c0 []) p.root p.files in
+    let (_, _, sviews) = List.fold_left (fun (cs, v, acc) e ->
+        let v' = spec_steps re_ok re_match raw p.json p.c0 p.root p.files cs v [e] in
+        let cs' = (match e with ESettings c -> cs @ [c] | _ -> cs) in
+        (cs', v', acc @ [show v'])) ([], v0, [show v0]) evs in
+    let spec = compress sviews in
+    if not (edits_wf evs) then "BAD-CASE edits" else
+    (* the model *)
+    let cls = ref [] in
+    let add c = if not (List.mem c !cls) then cls := !cls @ [c] in
+    let fault k = (match k with
+        | Fault Regexp -> "CRASH regexp\t" ^ spec ^ "\tbad_regex"
+        | Fault NilDeref -> "CRASH nil-map\t" ^ spec ^ "\tlocal_master_off"
+        | Fault _ -> "CRASH other\t" ^ spec ^ "\t-"
+        | _ -> "OUT-OF-FUEL\t" ^ spec ^ "\t-") in
+    (match start fx re_ok re_match raw p.root p.files p.json p.c0 p.lr with
+     | Ok st0 ->
+       let rec go st acc = function
+         | [] -> Ok (List.rev acc)
+         | e :: r ->
+           (match e with ESettings _ -> if cls_live_stale fx st then add "live_stale" | _ -> ());
+           (match step fx re_ok re_match raw p.root p.files st e with
+            | Ok st' -> go st' (show st'.l_view :: acc) r
+            | Fault k -> Fault k
+            | OutOfFuel -> OutOfFuel) in
+       (match go st0 [show st0.l_view] evs with
+        | Ok views -> compress views ^ "\t" ^ spec ^ "\t" ^ (if !cls = [] then "-" else String.concat "," !cls)
+        | k -> fault k)
+     | k -> fault k)
+  | _ -> "BAD-CASE")
+
 let () = register "c17.variant" (fun _ ->
   String.concat "" (List.map (fun b -> if b then "1" else "0")
-                      [fx.fx_regexp; gate_covers fx; fx.fx_coupled; fx.fx_dead; fx.fx_dup; fx.fx_sites]))
+                      [fx.fx_regexp; gate_covers fx; fx.fx_coupled; fx.fx_dead; fx.fx_dup; fx.fx_sites; fx.fx_live]))
 
 let show_names l = if l = [] then "_" else String.concat "," (List.map (fun x -> if x = [] then "-" else hex_of_bytes x) l)
 let show_ints l = if l = [] then "_" else String.concat "." (List.map (fun x -> string_of_int (int_of_n x)) l)
